@@ -129,6 +129,34 @@ class AAdapterProp(Prop):
         return h
 
 
+NOVEL = []      # see vlib/dictionary.py
+
+
+def dictionary_cases():
+    cases = []
+    for v in NOVEL:
+        if v > 70000:
+            lims = [v]
+            caps = []
+        else:
+            lims = [v]
+            caps = [v, v + 1]
+        n = min(v + 2, 70000)
+        s2 = [97 + (i % 26) for i in range(n)]
+        for limit in lims:
+            for cap in ([8] + caps):
+                for pre in ((), (1, 2)):
+                    ops = [("R", pre, cap, 0), ("R", pre, cap, 0), ("R", (), 8, 0)]
+                    cases.append(mk_atake(limit, s2, [], [], ops, "dictionary"))
+                    cases.append(mk_atake(limit, s2, [(3, 0, 0), (0, max(min(v, 70000), 1), 0)], [], ops, "dictionary"))
+        for cap in caps:
+            for pre in ((), (1, 2)):
+                ops = [("R", pre, cap, 0), ("R", pre, cap, 0), ("R", (), 8, 0), ("R", (), 8, 0)]
+                cases.append(mk_achain(s2[:min(n, 3)], [], s2, [], [], ops, "dictionary"))
+                cases.append(mk_achain(s2, [(0, max(min(v, 70000), 1), 0)], [99, 100], [], [], ops, "dictionary"))
+    return cases
+
+
 class C16(AAdapterProp):
     pid = "C16"
     coq_targets = ["Props/C16.vo"]
@@ -182,6 +210,8 @@ class C16(AAdapterProp):
             else:
                 limit = rng.choice([0, 1, 2, len(s2), max(len(s2) - 1, 0), len(s2) + 1, 100, U64, 2 ** 63])
                 cases.append(mk_atake(limit, s2, ascripts(rng, rng.randrange(0, 8)), awscripts(rng, rng.randrange(0, 4)), ops, "random"))
+        if NOVEL:
+            cases += dictionary_cases()
         return cases
 
     def check(self, case, trace, prof):
